@@ -30,7 +30,7 @@ def unit(tier="quick", seed=0):
                     p.min_bound = lo
             except Exception:  # noqa: BLE001
                 continue
-            for ops in itertools.product(range(3), vals[:8], repeat=1):
+            for ops in itertools.product(range(3), vals[:8] + [float("nan"), f32("nan"), float("inf"), float("-inf")], repeat=1):
                 which, v = ops
                 n += 1
                 try:
@@ -49,7 +49,7 @@ def unit(tier="quick", seed=0):
             if fails and len(fails) > 20:
                 break
     o = dict(name="lightworks/sdk/circuit/parameters.py:Parameter#bnd.invariant-numpy-scalars", kind="bnd", cases=n, result="bounded-fail" if fails else "bounded-pass",
-             backend="native (double-precision comparison)", ms=0, note="value within bounds after every accepted / rejected update, values and bounds given as float, float32, float64, int64")
+             backend="native (double-precision comparison)", ms=0, note="value within bounds after every accepted / rejected update, values and bounds given as float, float32, float64, int64, NaN and +-inf")
     if fails:
         o["failing_cases"] = [str(f[0]) for f in fails]
         o["model"] = dict(case=fails[0][0], observed=fails[0][1], n_failing=len(fails))
